@@ -139,7 +139,9 @@ def run_set(desc, seed, res):
         wit = {"sequence": "SetDT8TcLimit", "mirek": mirek, "selector": sel}
         try:
             from dali.gear.colour import StoreColourTemperatureTcLimitDTR2
-            selarg = StoreColourTemperatureTcLimitDTR2(sel) if mi % 8 < 4 else sel
+            from models.tc209 import LIMIT_SELECTORS
+            lname = [n for n, v in LIMIT_SELECTORS.items() if v == sel][0]
+            selarg = StoreColourTemperatureTcLimitDTR2[lname] if mi % 8 < 4 else sel      # by the standard's name / by number
             bus.run_sequence(SetDT8TcLimit(dest, selarg, mirek))
         except Exception as e:
             res.violation(f"C14/limit/raised/{type(e).__name__}", f"SetDT8TcLimit(.., {sel}, {mirek}) raised {type(e).__name__}: {e}", wit)
@@ -166,7 +168,17 @@ def run_query(desc, seed, res):
     r = rng(seed, "C14", "query", desc["part"])
     sels = [s for i, s in enumerate(QueryColourValueDTR) if i % desc["of"] == desc["part"]]
     res.extra["selectors_in_enumeration"] = len(list(QueryColourValueDTR))
+    from models.tc209 import SELECTORS
     for sel in sels:
+        std = SELECTORS.get(sel.name)
+        res.evaluations += 1
+        if std is None:
+            res.violation("C14/selector/unknown-name", f"query selector {sel.name} is not in IEC 62386-209 Table 11", {"selector": sel.name})
+            continue
+        if int(sel) != std:
+            res.violation("C14/selector/number", f"query selector {sel.name} has value {int(sel)}, IEC 62386-209 Table 11 assigns {std}",
+                          {"selector": sel.name})
+            continue
         vals = sorted({0, 1, 255, 256, 0x00FF, 0x0100, 0xFE00, 0xFEFF, 0xFF00, 0xFFFF, 0x1234, 0x8000} |
                       {r.getrandbits(16) for _ in range(desc["values"])})
         for vi, v in enumerate(vals):
